@@ -2,6 +2,7 @@
 independent encoder, so the class is known by construction) towards either endpoint and run interactions whose application code
 raises at every entry point; a witness stream must complete with all its payloads and a probe request must be served afterwards.
 Clauses C12.* of RSocket.tla; C01.* failures in these families count as C12 ('requests on other streams are still served correctly')."""
+from .. import common
 from . import conn, families, mc
 
 
@@ -14,6 +15,11 @@ def run(v):
             if e['ev'] == 'inject':
                 classes[e['kind']] = classes.get(e['kind'], 0) + 1
     v.coverage['junk_classes_injected'] = classes
+    from ..harness.junk import CLASSES
+    never = [c for c in CLASSES if classes.get(c, 0) == 0]
+    if never:
+        # vacuity guard: a class that is in the generator's list but is never applicable in any scenario checks nothing
+        raise common.Machinery('junk classes never injected in this run (no applicable scenario): %s' % ', '.join(never))
     v.coverage['raise_point_scenarios'] = sum(1 for s in scns if any(isinstance(st[-1], dict) and (st[-1].get('raise') or st[-1].get('pub_raise_in')
                                                                       or st[-1].get('sub_raise_in') or st[-1].get('raise_at') is not None)
                                                                      for st in s['prog'] if len(st) > 1))
